@@ -85,7 +85,7 @@ _TRANSPARENT = [re.compile(p) for p in TRANSPARENT_UNARY]
 # combinators that `?` looks through (simp_ok / err_of): their call is not an event of its own, so that
 # `x.ok_or(E)?` / `x.map_err(f)?` and the explicit `match` leave the same trace
 IS_VARIANT = re.compile(r"^std::(option::Option::(is_some|is_none)|result::Result::(is_ok|is_err))$")
-COMBINATOR = re.compile(r"^std::(option::Option|result::Result)::(map|and_then|transpose|unwrap_or_default|unwrap_or|expect|unwrap)$")
+COMBINATOR = re.compile(r"^std::(option::Option|result::Result)::(map|and_then|map_err|transpose|unwrap_or_default|unwrap_or|expect|unwrap)$")
 PURE_COMBINATOR = re.compile(r"^std::(option::Option::(ok_or|ok_or_else)|result::Result::(map_err|ok))$")
 
 
@@ -611,6 +611,27 @@ class Walker:
                     elif not self._apply(s2, F, payload, t, wrap):
                         return False
             return True
+        if short == "map_err" and not is_opt and len(args) == 2 and isinstance(x, tuple) and x[0] == "agg" and x[1] == "adt" and x[3] in ("Ok", "Err"):
+            # only on a value whose variant is known on this path (e.g. the result of a modelled `.map(..)`); `x.map_err(f)?` on an
+            # opaque x keeps being looked through by `?`
+            if x[3] == "Ok":
+                self.assign(st, t["dest"], x)
+                self._walk(t["t"], st)
+                return True
+            payload = x[5][0] if x[5] else ("unit",)
+            F = strip_refs(args[1])
+            wrap = ("wrap", "std::result::Result", "Err", 1)
+            if isinstance(F, tuple) and F[0] == "fnref":
+                g = self._inline_target({}, did=F[1])
+                if g is not None and g.body["argc"] == 1:
+                    self._inline(st, g, {1: payload}, t, wrap)
+                    return True
+                v = ("call", F[1], (payload,), bi)
+                st["events"].append(("call", F[1], (payload,), bi, loc_of(t["at"]), {"path": F[1]}, len(st["atoms"])))
+                self.assign(st, t["dest"], ("agg", "adt", "std::result::Result", "Err", 1, (v,)))
+                self._walk(t["t"], st)
+                return True
+            return self._apply(st, F, payload, t, wrap)
         if short == "transpose" and is_opt and len(args) == 1 and isinstance(x, tuple) and x[0] == "agg" and x[1] == "adt":
             if x[3] == "None":
                 v = ("agg", "adt", "std::result::Result", "Ok", 0, (x,))
